@@ -16,6 +16,11 @@ pub enum Kind {
     Pct { points: Vec<u64> },
     /// re-execute a decision list (entry STAY or not runnable: stay on the current task)
     Replay { decisions: Vec<u32> },
+    /// "focus": quiet random walk, but when the running task is at an interesting point (a
+    /// simfony-level synchronisation operation, marked by the source seam) it is, with the given
+    /// probability, parked right there while the other tasks run - for up to `park_steps` steps or
+    /// until nobody else can run.  This stretches windows of a few instructions to whole operations.
+    Focus { park_permille: u32, park_steps: u64 },
 }
 
 #[derive(Default, Debug, Clone)]
@@ -27,6 +32,10 @@ pub struct Trace {
     /// switches that took the processor away from a worker task that could have continued
     pub preemptions: u64,
     pub max_runnable: usize,
+    /// scheduling decisions taken while the running task was at an interesting point
+    pub interesting_points: u64,
+    /// times a task was parked at such a point
+    pub parks: u64,
 }
 
 pub struct SimScheduler {
@@ -36,11 +45,12 @@ pub struct SimScheduler {
     trace: Arc<Mutex<Trace>>,
     prio: Vec<u64>,
     pos: usize,
+    parked: Option<(usize, u64)>,
 }
 
 impl SimScheduler {
     pub fn new(kind: Kind, seed: u64, trace: Arc<Mutex<Trace>>) -> Self {
-        SimScheduler { kind, rng: Prng::new(seed), started: false, trace, prio: Vec::new(), pos: 0 }
+        SimScheduler { kind, rng: Prng::new(seed), started: false, trace, prio: Vec::new(), pos: 0, parked: None }
     }
 }
 
@@ -57,7 +67,12 @@ impl Scheduler for SimScheduler {
         let ids: Vec<usize> = runnable.iter().map(|t| usize::from(t.id())).collect();
         let cur: Option<usize> = current.map(usize::from);
         let cur_runnable = cur.map(|c| ids.contains(&c)).unwrap_or(false);
+        // the mark is consumed at every decision, whatever the scheduler kind
+        let at_point = simfony::simseam_sync::take_point();
         let mut tr = self.trace.lock().unwrap();
+        if at_point {
+            tr.interesting_points += 1;
+        }
         tr.steps += 1;
         let step = tr.steps;
         tr.max_runnable = tr.max_runnable.max(ids.len());
@@ -89,6 +104,31 @@ impl Scheduler for SimScheduler {
                         }
                     }
                     *ids.iter().max_by_key(|id| self.prio[**id]).unwrap()
+                }
+                Kind::Focus { park_permille, park_steps } => {
+                    // release an expired park
+                    if let Some((t, left)) = self.parked {
+                        let others = ids.iter().any(|i| *i != t);
+                        if left == 0 || !others {
+                            self.parked = None;
+                        } else {
+                            self.parked = Some((t, left - 1));
+                        }
+                    }
+                    if self.parked.is_none() && at_point && cur_runnable && ids.len() > 1 && self.rng.chance(*park_permille) {
+                        self.parked = Some((cur.unwrap(), *park_steps));
+                        tr.parks += 1;
+                    }
+                    let allowed: Vec<usize> = match self.parked {
+                        Some((t, _)) => ids.iter().copied().filter(|i| *i != t).collect(),
+                        None => ids.clone(),
+                    };
+                    let allowed = if allowed.is_empty() { ids.clone() } else { allowed };
+                    if cur.map(|c| allowed.contains(&c)).unwrap_or(false) && !self.rng.chance(20) {
+                        cur.unwrap()
+                    } else {
+                        *self.rng.pick(&allowed)
+                    }
                 }
                 Kind::Replay { decisions } => {
                     let want = decisions.get(self.pos).copied().unwrap_or(STAY);
